@@ -10,6 +10,11 @@
 (*              decls <<decl>>, body <<stmt>>, result, host]               *)
 (* decl      = [name, type ("int"|"real"|"log"), intent, dims <<<<lb,ub>>>>,*)
 (*              init (expr or [k |-> "none"])]   dims = <<>> for scalars   *)
+(*   optional decl fields (C34/C39, harness/lib_fm_signature.py):          *)
+(*     xdims <<<<lo, hi>>>>  bounds as expressions evaluated on entry; lo   *)
+(*        none = 1, hi [k |-> "assumed"] = assumed shape (see HasX, XBind)  *)
+(*     rec, field  component r%f of the record variable rec (type "rec"    *)
+(*        placeholder decl), see CallUnit.BoundComp                        *)
 (* stmt      = [s |-> "assign", lhs, rhs] | [s |-> "if", conds, bodies, els]*)
 (*           | [s |-> "do", var, lo, hi, st, body] | [s |-> "while", cond, body]*)
 (*           | [s |-> "select", e, cases <<[lo, hi, body]>>, default]       *)
@@ -56,18 +61,39 @@ Conv(ty, v) == IF IsErr(v) THEN v
                ELSE IF ty = "real" THEN (IF v.t = "log" THEN Err("type") ELSE ToReal(v))
                ELSE (IF v.t = "log" THEN v ELSE Err("type"))
 
-\* Associate names bound to a variable or an array element are aliases:
-\* [t |-> "alias", base |-> name, ix |-> <<>> (the whole entity) or an index tuple (one element)]
+\* Associate names bound to a variable, an array element or a rank-1 array section are aliases:
+\* [t |-> "alias", base |-> name, ix |-> <<>> (the whole entity) or an index tuple (one element), sec]
+\* For a section base(.., lo:hi:st, ..) (exactly one range subscript) sec = [d (the range dimension), lo, st,
+\* n (extent)], ix holds the scalar subscripts (ix[d] = lo) and the name is a rank-1 array with bounds 1..n:
+\* name(e) is base(.., lo + (e-1)*st, ..).  sec.d = 0 for the other aliases.
+NoSec == [d |-> 0, lo |-> 0, st |-> 0, n |-> 0]
+\* (alias records built elsewhere without a sec field - FMachineLog - count as sec.d = 0)
+HasSec(al) == "sec" \in DOMAIN al /\ al.sec.d # 0
+IsSecAlias(env, name) == env[name].t = "alias" /\ HasSec(env[name])
 Deref(env, name) == LET v == env[name] IN
                     IF v.t # "alias" THEN v
                     ELSE IF v.ix = <<>> THEN env[v.base] ELSE env[v.base].data[v.ix]
 IntLit(v) == [k |-> "int", v |-> v]
-\* an lvalue reference through an alias, rewritten to a reference to the aliased entity
+\* a reference z, z(e) or z(a:b:c) to a section alias, rewritten to a reference to the base array
+SecAliasRef(al, ref) ==
+  LET sc == al.sec
+      at(e) == [k |-> "sum", c |-> <<IntLit(sc.lo), [k |-> "prod", c |-> <<[k |-> "par", c |-> <<[k |-> "sum", c |-> <<e, IntLit(-1)>>]>>], IntLit(sc.st)>>]>>]
+      sub == IF ref.k = "var"
+             THEN [k |-> "range", lo |-> IntLit(sc.lo), hi |-> IntLit(sc.lo + (sc.n - 1) * sc.st), st |-> IntLit(sc.st)]
+             ELSE LET s == ref.c[1] IN
+                  IF s.k = "range"
+                  THEN [k |-> "range", lo |-> at(IF IsNone(s.lo) THEN IntLit(1) ELSE s.lo),
+                                       hi |-> at(IF IsNone(s.hi) THEN IntLit(sc.n) ELSE s.hi),
+                                       st |-> IF IsNone(s.st) THEN IntLit(sc.st) ELSE [k |-> "prod", c |-> <<s.st, IntLit(sc.st)>>]]
+                  ELSE at(s)
+  IN [k |-> "arr", name |-> al.base, c |-> [j \in 1..Len(al.ix) |-> IF j = sc.d THEN sub ELSE IntLit(al.ix[j])]]
+\* a reference through an alias, rewritten to a reference to the aliased entity
 RealRef(env, ref) ==
   IF ref.k \notin {"var", "arr"} THEN ref
   ELSE IF ref.name \notin DOMAIN env \/ env[ref.name].t # "alias" THEN ref
   ELSE LET al == env[ref.name] IN
-       IF al.ix = <<>> THEN [ref EXCEPT !.name = al.base]
+       IF HasSec(al) THEN SecAliasRef(al, ref)
+       ELSE IF al.ix = <<>> THEN [ref EXCEPT !.name = al.base]
        ELSE [k |-> "arr", name |-> al.base, c |-> [d \in 1..Len(al.ix) |-> IntLit(al.ix[d])]]
 
 (* ------------------------------------------------------------ expressions *)
@@ -113,6 +139,7 @@ EvalE(P, e, env, pos) ==
     [] e.k = "real" -> Q(e.n, e.d)
     [] e.k = "log"  -> L(e.v)
     [] e.k = "var"  -> IF e.name \notin DOMAIN env THEN Err("undeclared")
+                       ELSE IF IsSecAlias(env, e.name) THEN EvalE(P, RealRef(env, e), env, pos)
                        ELSE LET v == Deref(env, e.name) IN
                             IF v.t = "undef" THEN Err("undef")
                             ELSE IF v.t = "arr" THEN
@@ -121,7 +148,8 @@ EvalE(P, e, env, pos) ==
                                   ELSE LET ix == [d \in 1..Len(pos) |-> v.lb[d] + pos[d] - 1] IN
                                        IF InBounds(v, ix) THEN (IF v.data[ix].t = "undef" THEN Err("undef") ELSE v.data[ix]) ELSE Err("bounds"))
                             ELSE v
-    [] e.k = "arr"  -> IF e.name \notin DOMAIN env \/ Deref(env, e.name).t # "arr" THEN Err("undeclared")
+    [] e.k = "arr"  -> IF e.name \in DOMAIN env /\ IsSecAlias(env, e.name) THEN EvalE(P, RealRef(env, e), env, pos)
+                       ELSE IF e.name \notin DOMAIN env \/ Deref(env, e.name).t # "arr" THEN Err("undeclared")
                        ELSE LET a == Deref(env, e.name)
                                 r == SubIdx(P, a, e.c, env, pos, 1, 1)
                             IN IF ~r.ok THEN Err("subscript")
@@ -283,36 +311,55 @@ ExecStmt(P, u, s, S) ==
     [] s.s = "assoc"  -> Associate(P, u, s, S)
     [] OTHER -> Fail(S, "unsupported-statement")
 
-\* ASSOCIATE (names => selectors).  A selector that is a variable or an array element is associated
-\* with that entity: the name is bound on entry (element subscripts are evaluated once, on entry) and
-\* what the block stores into the name is stored into the entity.  Any other selector is an expression
-\* evaluated on entry.  (The generators never mention a selector's own variable inside the block, so
-\* binding by copy-in / copy-out is indistinguishable from association.)  Names shadow outer entities
-\* of the same name for the duration of the block.
+\* ASSOCIATE (names => selectors).  A selector that is a variable, an array element or a rank-1 array
+\* section is associated with that entity: the name is bound on entry (subscripts and section bounds are
+\* evaluated once, on entry) and what the block stores into the name is stored into the entity.  Any other
+\* selector is an expression evaluated on entry.  A name may shadow an associate name of an enclosing block
+\* (restored on exit); shadowing of any other entity is not modelled.
 Associate(P, u, s, S) ==
   LET n == Len(s.names)
       tref(i) == RealRef(S.env, s.targets[i])          \* selector, seen through enclosing associations
       isvar(i) == s.targets[i].k = "var" /\ s.targets[i].name \in DOMAIN S.env /\ tref(i).k = "var"
-      iselem(i) == tref(i).k = "arr" /\ tref(i).name \in DOMAIN S.env /\ S.env[tref(i).name].t = "arr"
-                   /\ \A d \in 1..Len(tref(i).c) : tref(i).c[d].k # "range"
+      isarrref(i) == tref(i).k = "arr" /\ tref(i).name \in DOMAIN S.env /\ S.env[tref(i).name].t = "arr"
+      rngs(i) == {d \in 1..Len(tref(i).c) : tref(i).c[d].k = "range"}
+      iselem(i) == isarrref(i) /\ rngs(i) = {}
+      issec(i) == isarrref(i) /\ Cardinality(rngs(i)) = 1
       elemix(i) == SubIdx(P, S.env[tref(i).name], tref(i).c, S.env, <<>>, 1, 1)
-      val(i) == IF isvar(i) THEN [t |-> "alias", base |-> tref(i).name, ix |-> <<>>]
+      secval(i) ==
+        LET a == S.env[tref(i).name]
+            d == CHOOSE x \in rngs(i) : TRUE
+            r == tref(i).c[d]
+            lo == IF IsNone(r.lo) THEN I(a.lb[d]) ELSE EvalE(P, r.lo, S.env, <<>>)
+            hi == IF IsNone(r.hi) THEN I(a.ub[d]) ELSE EvalE(P, r.hi, S.env, <<>>)
+            st == IF IsNone(r.st) THEN I(1) ELSE EvalE(P, r.st, S.env, <<>>)
+            subs == TLCEval([j \in 1..Len(tref(i).c) |-> IF j = d THEN lo ELSE EvalE(P, tref(i).c[j], S.env, <<>>)])
+        IN IF Len(subs) # Len(a.lb) \/ (\E j \in 1..Len(subs) : subs[j].t # "int") \/ hi.t # "int" \/ st.t # "int" THEN Err("subscript")
+           ELSE IF st.v = 0 THEN Err("subscript")
+           ELSE LET cnt == TripCount3(lo.v, hi.v, st.v)
+                    ixs == [j \in 1..Len(subs) |-> subs[j].v]
+                IN IF cnt > 0 /\ (~InBounds(a, ixs) \/ ~InBounds(a, [ixs EXCEPT ![d] = lo.v + (cnt - 1) * st.v])) THEN Err("bounds")
+                   ELSE [t |-> "alias", base |-> tref(i).name, ix |-> ixs, sec |-> [d |-> d, lo |-> lo.v, st |-> st.v, n |-> cnt]]
+      val(i) == IF isvar(i) THEN [t |-> "alias", base |-> tref(i).name, ix |-> <<>>, sec |-> NoSec]
                 ELSE IF iselem(i) THEN (IF elemix(i).ok /\ InBounds(S.env[tref(i).name], elemix(i).ix)
-                                        THEN [t |-> "alias", base |-> tref(i).name, ix |-> elemix(i).ix] ELSE Err("bounds"))
+                                        THEN [t |-> "alias", base |-> tref(i).name, ix |-> elemix(i).ix, sec |-> NoSec] ELSE Err("bounds"))
+                ELSE IF issec(i) THEN secval(i)
                 ELSE EvalE(P, s.targets[i], S.env, <<>>)
       vals == TLCEval([i \in 1..n |-> val(i)])
-      tyof(i) == IF isvar(i) \/ iselem(i) THEN Decl(u, tref(i).name).type
+      tyof(i) == IF isvar(i) \/ iselem(i) \/ issec(i) THEN Decl(u, tref(i).name).type
                  ELSE IF vals[i].t \in {"int", "real", "log"} THEN vals[i].t ELSE "int"
       idx(nm) == CHOOSE i \in 1..n : s.names[i] = nm
       names == {s.names[i] : i \in 1..n}
-      u2 == [u EXCEPT !.decls = @ \o [i \in 1..n |-> [name |-> s.names[i], type |-> tyof(i), intent |-> "local", dims |-> <<>>, init |-> None]]]
+      shadowed == names \cap DOMAIN S.env
+      u2 == [u EXCEPT !.decls = SelectSeq(@, LAMBDA dc : dc.name \notin names)
+                                \o [i \in 1..n |-> [name |-> s.names[i], type |-> tyof(i), intent |-> "assoc", dims |-> <<>>, init |-> None]]]
       env1 == TLCEval([nm \in DOMAIN S.env \cup names |-> IF nm \in names THEN vals[idx(nm)] ELSE S.env[nm]])
       bad == {i \in 1..n : IsErr(vals[i])}
   IN
   IF bad # {} THEN Fail(S, "associate-selector")
-  ELSE IF names \cap DOMAIN S.env # {} THEN Fail(S, "associate-shadowing-not-modelled")
+  ELSE IF \E nm \in shadowed : nm \notin DeclNames(u) \/ Decl(u, nm).intent # "assoc" THEN Fail(S, "associate-shadowing-not-modelled")
   ELSE LET B == ExecBody(P, u2, s.body, [S EXCEPT !.env = env1]) IN
-       IF B.st = "err" THEN B ELSE [B EXCEPT !.env = TLCEval([nm \in DOMAIN S.env |-> B.env[nm]])]
+       IF B.st = "err" THEN B
+       ELSE [B EXCEPT !.env = TLCEval([nm \in DOMAIN S.env |-> IF nm \in shadowed THEN S.env[nm] ELSE B.env[nm]])]
 
 (* ------------------------------------------------------------ procedure call *)
 \* Argument association by copy-in / copy-out.  For programs that respect Fortran's aliasing rules
@@ -336,10 +383,12 @@ InitLocal(P, d, env) ==
   ELSE IF IsNone(d.init) THEN Undef ELSE Conv(d.type, EvalE(P, d.init, env, <<>>))
 
 \* returns [st, why, env (caller's env after copy-out), out, ret (function result value)]
-CallUnit(P, cal, actuals, S) ==
-  IF Len(actuals) # Len(cal.args) THEN [st |-> "err", why |-> "argument-count", env |-> S.env, out |-> S.out, ret |-> Undef]
+CallUnit(P, cal, actuals0, S) ==
+  IF Len(actuals0) # Len(cal.args) THEN [st |-> "err", why |-> "argument-count", env |-> S.env, out |-> S.out, ret |-> Undef]
   ELSE
-  LET argidx(n) == CHOOSE i \in 1..Len(cal.args) : cal.args[i] = n
+  LET \* an associate name as actual argument stands for the entity it is associated with
+      actuals == [i \in 1..Len(actuals0) |-> RealRef(S.env, actuals0[i])]
+      argidx(n) == CHOOSE i \in 1..Len(cal.args) : cal.args[i] = n
       isarg(n) == \E i \in 1..Len(cal.args) : cal.args[i] = n
       actualval(i) ==
          LET a == actuals[i] IN
